@@ -57,6 +57,51 @@ CHECKS["C12"] = dict(
     technique="TLA+ reference solver + TLC exhaustive enumeration of configurations; each configuration replayed into the implementation",
 )
 
+CHECKS["C01"] = dict(
+    category="model_checking",
+    text="The input space is enumerated by TLC from the specification: every token text up to a length (TokenScan.tla) and every molecule SHAPE of the bounded "
+         "grammar (MoleculeSyntax.tla: prefix / connector / suffix absent, implicit or explicit; all terminal symbols; 1-2 objects; unit and end-group counts; "
+         "mixture forms), for which TLC also checks that descriptor insertion is idempotent and that erasure keeps every structural lexeme. Every enumerated input, "
+         "every descriptor form, the instance library, seeded archetypes and every string quoted in README / SI.md / tests are replayed through "
+         "parse -> print -> parse -> print, compared by object signature, by seeded generation, and by the extension-free form (= canonical with |...| erased, accepted again).",
+    design_ref="DESIGN.md 4/C01",
+    note="Trusted: TLC, the independent printer, RDKit for canonical fragments. Relational oracle: only what the statement demands (the text of the canonical form is never prescribed).",
+    technique="TLA+ grammar specs enumerated exhaustively by TLC (model theorems checked); every enumerated input replayed into the implementation (round trips)",
+)
+CHECKS["C15"] = dict(
+    category="model_checking",
+    text="Ill-formed inputs are derived from the specification: the breaking actions of TokenScan.tla plus every single-symbol insertion / deletion on every "
+         "TLC-enumerated valid token text that violates a rule the statement lists; at object level one breaking operator per rule of the statement (unknown "
+         "distribution, list length, negative weight, text after mixture, percentage range, non-generable, missing / mismatching prefix in both directions, braces, "
+         "brackets, unknown symbol) applied to library instances and TLC-enumerated shapes. The real outcome must be a rejection (parse error, not generable, or error "
+         "at generate); a returned token / molecule is the violation. Parsing of byte-level mutations must return within a time bound.",
+    design_ref="DESIGN.md 4/C15",
+    note="Trusted: TLC; the rule predicates (branch balance in written order, descriptor between atoms). The termination clause on arbitrary bytes is bounded-time fuzzing, not model checking.",
+    technique="TLA+ spec with breaking actions enumerated by TLC; derived ill-formed inputs replayed into the parser / generator",
+)
+CHECKS["C13"] = dict(
+    category="model_checking",
+    text="Ensemble.tla (component pick, member generation by the component's own generation machine - Generate instantiated per component -, fully-generated "
+         "requirement, accumulation, stop at the first member reaching the system mass). The implementation's complete choice tree of System.generator and "
+         "System.generate for small systems (fixed molecules, polymers, exact-boundary system mass, a component that cannot be completed, a 0 % component) is "
+         "validated node by node by TLC (EnsembleTrace.tla): every yielded member must be a behaviour of the picked component's machine and equal its result; the "
+         "iteration must end exactly when the model ends; non-generable systems must refuse on both entry points.",
+    design_ref="DESIGN.md 4/C13",
+    note="Trusted: TLC, RDKit (reading molecules), the scripted generator. System.generator's rng is passed through the property's fget.",
+    technique="TLA+ spec (Ensemble.tla with parametrised INSTANCE Generate); implementation choice trees validated by TLC",
+)
+CHECKS["C14"] = dict(
+    category="model_checking",
+    text="Decided at the generator interface: for mass shares to converge to the declared fractions the per-molecule pick law must be proportional to "
+         "fraction / mean member mass (ShareLawHolds in Ensemble.tla, integer cross-multiplication). TLC evaluates this on every recorded component pick of "
+         "systems with fixed-mass components (mass ratios 1-100, zero and non-integer percentages, 2-4 components). The unchanged code uses the declared fractions "
+         "per molecule: recorded as a known finding that is matched ONLY by that exact law; any other vector (wrong component index, truncated percentages) is a "
+         "new violation. Thorough tier adds a frequency backstop on equal-mass systems.",
+    design_ref="DESIGN.md 4/C14",
+    note="The convergence clause itself is statistical; the exact decision is made on the selection probabilities. Trusted: TLC, exact masses of fixed molecules from RDKit.",
+    technique="TLA+ law (Ensemble.tla) evaluated by TLC on recorded pick events (trace validation)",
+)
+
 PENDING_REASON = "check not built yet in this round (design in DESIGN.md); no claim is made"
 
 
